@@ -29,8 +29,8 @@ MANIFEST = {
                   'the same run.  Exploration level; K3 classified by mechanism.',
     'level_note': 'Trusts the POSIX evaluator + glibc agreement, CPython datetime; tzlocal is driven through tzset in-process.',
 }
-PLAN = {'quick': {'shards': 4, 'timeout': 600, 'budget': 60},
-        'thorough': {'shards': 16, 'timeout': 3000, 'budget': 900}}
+PLAN = {'quick': {'shards': 4, 'timeout': 1800, 'budget': 900},
+        'thorough': {'shards': 16, 'timeout': 7200, 'budget': 2400}}
 N_TRIPLES = {'quick': 40, 'thorough': 600}
 YEARS = (2019, 2020, 2021)
 DELTAS = (-86400, -7200, -3600, -1800, -1, 0, 1, 1799, 1800, 3599, 3600, 7199, 7200, 86400)
